@@ -30,6 +30,7 @@ func TestC17(t *testing.T) {
 		nowS := nsTime(v.NowNs).Unix()
 		model := map[string]*linAcc{}
 		sentToRecorded := 0
+		manyRecorded := false
 		sendsToExisting := 0
 		recordedNonVesting := 0
 		var recordedAbsent []sdk.AccAddress // recorded in the genesis file although no account exists there (yet)
@@ -76,6 +77,11 @@ func TestC17(t *testing.T) {
 		FundModule(v.App, v.Ctx, vestingtypes.ModuleName, sdk.NewCoins(sdk.NewCoin(Denom, total)))
 		// seed accounts: genesis-traced, non-genesis traced, untraced
 		nSeed := rapid.IntRange(0, 3).Draw(t, "nSeedAccounts")
+		if rapid.IntRange(0, 9).Draw(t, "manyRecordedAccounts") == 0 {
+			// a chain that has been running for a while: more recorded accounts than any default page size
+			nSeed = rapid.IntRange(101, 140).Draw(t, "nManyAccounts")
+			manyRecorded = true
+		}
 		for i := 0; i < nSeed; i++ {
 			addr := v.NextFresh()
 			makeCVA(v, addr, sdk.NewCoins(sdk.NewInt64Coin(Denom, int64(rapid.IntRange(1000, 1_000_000).Draw(t, fmt.Sprintf("seed%d_ov", i))))), nowS-100, nowS+int64(rapid.IntRange(1000, 10_000_000).Draw(t, fmt.Sprintf("seed%d_len", i))), sdk.NewCoins(sdk.NewInt64Coin(Denom, 500_000)))
@@ -339,6 +345,9 @@ func TestC17(t *testing.T) {
 		}
 		if maxDepthG >= 4 || maxDepthN >= 4 {
 			cl = append(cl, "chain_depth_ge4")
+		}
+		if manyRecorded {
+			cl = append(cl, "more_than_100_recorded_accounts")
 		}
 		if sendsToExisting > 0 {
 			cl = append(cl, "pool_send_to_existing_vesting_account")
